@@ -272,6 +272,10 @@ KERNEL_BNET = {
     "toggle_neg_osc": "A, !B\nB, !A\nC, !C | A",
     "maa_next_switch": None,  # filled below: maa3 (+) bistable
     "nested": "A, A\nB, A & B | !A & C\nC, B | C & !A",
+    # two source SCCs, one of them with a succession diagram of depth 2 (SCC attachment below an already expanded root)
+    "two_scc_deep": "x1, x2\nx2, x1 | x3\nx3, x3 & x1\ny1, y2\ny2, y1",
+    # a source SCC whose sub-diagram has a motif-avoidant attractor in a non-root, non-minimal node
+    "scc_inner_maa": "S, T | (S & A)\nT, S\nA, S & ((!A & !B) | C)\nB, S & ((!A & !B) | C)\nC, A & B\nX, !X",
     "allnfvs_two_attr": None,  # index witness D1 (10394725)
     "allnfvs_transient": None,  # index witness D1 (3942170)
     "livelock_witness": None,  # index witness D2 (1745577)
